@@ -323,6 +323,22 @@ pub fn generate(tier: &str, rng: &mut Rng) -> (Vec<String>, bool) {
         let (t, o, dq) = rotate(i * 7 + rng.below(60), has_null, integral);
         push_case(&mut out, cfg, &xs, w, mp, t, o, dq);
     }
+
+    // 64-bit integers beyond 2^53: neighbours that f64 cannot tell apart must still be ranked /
+    // located exactly (outputs are small numbers, so they stay exact in the f64 output)
+    let big: i64 = 1 << 53;
+    let pool: Vec<String> = [0i64, 1, 2, 3].iter().flat_map(|k| vec![(big + k).to_string(), (-big - k).to_string()]).collect();
+    let pool_refs: Vec<&str> = pool.iter().map(|s| s.as_str()).collect();
+    for len in 1..=4usize {
+        for (si, xs) in all_series(&pool_refs, len).into_iter().enumerate() {
+            if si % 3 != 0 && len >= 3 { continue; }
+            for w in 1..=len + 1 {
+                for (f, extra) in [("ts_vrank", " pct=0 rev=0"), ("ts_vrank", " pct=0 rev=1"), ("ts_vargmin", ""), ("ts_vargmax", "")] {
+                    out.push(format!("{} w={} mp=1 t=i64 o=f64{} xs={}", f, w, extra, join(&xs)));
+                }
+            }
+        }
+    }
     (out, true)
 }
 
